@@ -50,7 +50,8 @@ class Cell:
 
 class Outcome:
     def __init__(self, status, ret=None, error="", trace=None, logs=None, slots=None, cov=None, steps=0, maxdepth=0,
-                 uninit=None):
+                 uninit=None, recursion=None):
+        self.recursion = recursion or set()
         self.status, self.ret, self.error = status, ret, error
         self.trace = trace or []
         self.logs = logs or []
@@ -95,6 +96,7 @@ class Evaluator:
         self.cov = {}
         self.uninit = []
         self.itxn_count = 0
+        self.recursion_events = set()
 
     # ------------------------------------------------------------------ helpers
     def tick(self):
@@ -563,6 +565,12 @@ class Evaluator:
                 vals.append(self.ev(a))
         if len(self.frames) >= self.max_depth:
             raise ResourceLimit("depth")
+        if self.frames:
+            active = [f["sub"] for f in self.frames]
+            if k in active:
+                caller = self.r["subs"][active[-1]]
+                self.recursion_events.add(("self" if active[-1] == k else "mutual", caller["ret"], sub["ret"], len(caller["params"]),
+                                           len(sub["params"]), len(caller.get("locals", []))))
         defs = {l["id"]: l for l in sub.get("locals", [])}
         frame = {"params": vals, "locals": {l["id"]: Cell(0) for l in sub.get("locals", [])}, "defs": defs, "sub": k}
         ret = sub["ret"]
@@ -603,9 +611,11 @@ class Evaluator:
             for d in self.r.get("vars", []):
                 if d.get("slot") is not None and d.get("kind", "sv") == "sv" and self.globals[d["id"]].written:
                     slots[d["slot"]] = self.globals[d["id"]].v
-            return Outcome(status, v, "", self.trace, self.logs, slots, self.cov, self.steps, self.maxdepth_seen, self.uninit)
+            return Outcome(status, v, "", self.trace, self.logs, slots, self.cov, self.steps, self.maxdepth_seen, self.uninit,
+                           self.recursion_events)
         except Panic as p:
-            return Outcome("fail", None, str(p), self.trace, self.logs, {}, self.cov, self.steps, self.maxdepth_seen, self.uninit)
+            return Outcome("fail", None, str(p), self.trace, self.logs, {}, self.cov, self.steps, self.maxdepth_seen, self.uninit,
+                           self.recursion_events)
 
 
 def _nary_precise(self, e):
